@@ -255,6 +255,11 @@ def oracle(script, impl, checked):
     eff = None      # effective client format per the PROPERTY (BGR233 for colour-map clients)
     for op, ob in zip(ops, impl):
         t = op.split()
+        if ob.startswith("reject") and "client-left-open" in ob:
+            return ("refused pixel format but the client was left connected: cl->format is the refused "
+                    "format while translateFn/table still belong to the previous one (%s)" % ob)
+        if ob.startswith("reject"):
+            ob = "reject"
         if ob == "harness-error" or (ob == "bad-op" and checked):
             return "harness refused op %r: %s" % (op[:80], ob)
         if ob == "bad-op":
@@ -514,6 +519,19 @@ def build_cases(ctx):
                                     "setmsg" if ch == 1 else "set", "px 00010203 1 1 4"]) + "\n"
                     add(sc, 0, False, "core:guard", (s, c, econ),
                         finding=FINDING_24 if s.bpp == 24 else None)
+    # every refusing arm of rfbSetTranslateFunction, through the direct call (return value seen) and
+    # through a SetPixelFormat message: server bpp invalid, client bpp invalid, colour-map client
+    # that is not 8 bpp.  Refused = FALSE returned and the client closed.
+    ok32 = mk(32, host, (8, 8, 8), (16, 8, 0), depth=24)
+    for via in ("set", "setmsg"):
+        for s, c in ((ok32.replace(bpp=12), ok32), (ok32.replace(bpp=0), ok32),
+                     (ok32, ok32.replace(bpp=15)), (ok32, ok32.replace(bpp=64)),
+                     (ok32, ok32.replace(tc=0, bpp=16)), (ok32, ok32.replace(tc=0)),
+                     (core_srv[1][0], ok32.replace(tc=0, bpp=24))):
+            sc = "\n".join([s.line("server"), c.line("client"), via, "px 00000000 1 1 4",
+                            ok32.line("server"), core_cli[1].line("client"), via,
+                            "px 0102030405060708 2 1 8"]) + "\n"
+            add(sc, 2, False, "core:reject-arms", (s, c, via))
     # 1. catalogue (both economic settings for 16 bpp servers)
     cat = catalogue()
     full16_budget = 14 if tier == "quick" else 10 ** 9
@@ -720,14 +738,28 @@ def run(ctx):
     if any(c.get("noalign") for c in cases):
         h_noalign = ctx.harness("c10", extra=("-fno-sanitize=alignment",))
 
+    crashes = [0]
+
     def one(c):
-        return common.compare_streams(ctx, c["script"], h_noalign if c.get("noalign") else h, d,
-                                      "translate." + c["tag"], timeout=300)
+        # after 8 crashed/hung scripts the rest is not run any more (pmap starts every case; a
+        # change that makes every translation crash or spin must cost seconds, not hours)
+        if crashes[0] >= 8:
+            return [], [], {"kind": "skipped"}
+        r = common.compare_streams(ctx, c["script"], h_noalign if c.get("noalign") else h, d,
+                                   "translate." + c["tag"], timeout=240)
+        if r[2] is not None and r[2].get("kind") == "crash":
+            crashes[0] += 1
+            if "HANG:" in r[2].get("detail", ""):
+                r[2]["what"] += " (translate function does not terminate)"
+        return r
 
     results = common.pmap(one, cases)
     evals, distinct = 0, set()
     crashed_findings = set()
     for c, (impl, model, f) in zip(cases, results):
+        if f is not None and f.get("kind") == "skipped":
+            dist["stream"]["skipped-after-crashes"] = dist["stream"].get("skipped-after-crashes", 0) + 1
+            continue
         evals += 1
         crash = f is not None and f["kind"] == "crash"
         if f:
@@ -768,7 +800,7 @@ def run(ctx):
                 dist["bpp_pair"][k] = dist["bpp_pair"].get(k, 0) + 1
                 k = "%d,%d" % (srv.be, cli.be)
                 dist["byte_order(srv,cli)"][k] = dist["byte_order(srv,cli)"].get(k, 0) + 1
-                if ob == "reject":
+                if ob.startswith("reject"):
                     st = "reject"
                 elif ob.startswith("none"):
                     st = "none"
